@@ -34,6 +34,10 @@ CLAIMED = {
          "Exploration: points_to_curve (2D) and points_to_mesh (3D, both DistMode values) on asymmetric references with harness-drawn samples; displacement and starting guess inside a calibrated basin (incl. starting guesses that are large poses with pitch exactly or nearly +-90 degrees) must be recovered; for every Ok result (in or out of the basin) each residual is recomputed from the returned transform, the objective must not exceed its value at the start, and the recorded LM trace is replayed: every residual/Jacobian evaluation must belong to the latest set_params, logged residuals must equal the residuals at the logged parameters, sampled Jacobian rows must match central differences, and the returned transform must be the transform at the final parameters.",
          "Basin (2D: 2% of size / 6 deg; 3D: 3% / 6 deg, shared between displacement and guess) is half of the region in which every calibration run on the unchanged tree converged; samples keep a margin from corners/creases where the surface normal is a tie; recovery tolerance 1e-6*size (1e-4 ToPoint). Uses hook H3 (event log).",
          "3 / C07"),
+ "C08": ("runtime monitor: algebraic identities of the parameter objects, explicit Rx*Ry*Rz formulas, and central finite differences (chain rule for the point-point norm) as derivative oracle",
+         "Exploration: RcParams2/RcParams3 from_initial/set over the full Euler range incl. pitch +-pi/2 +- {0,1e-12..1e-2}, rotation centres to 1e3, pure-translation / pure-rotation / mixed updates; iso2/iso3 parameter round trips; RotationMatrices from_euler / from_rotation against explicit matrices and finite differences; every entry of the 2D point-surface and 3D point-plane / reference-side / point-point Jacobians against finite differences of the residual they differentiate; ParamHandler with 2-5 bodies, any static index, with and without initial isometries.",
+         "Inside the library's own gimbal band (|sin pitch| > 1-1e-8) extraction snaps pitch by design: tolerance 3e-4 there; nalgebra Euler extraction conditioning 1/sqrt(1-s^2) is allowed for. Point-plane cases on the kink of |.| are not judged. Uses hook H2 (re-export of the private 2D Jacobian).",
+         "3 / C08"),
 }
 
 def main():
